@@ -22,7 +22,7 @@ type Store struct {
 	Want    map[string][]byte // digest -> value expected after the upgrade
 	// what the generator did, for evidence
 	Pending, PreDeleted, Leaked, Dangling, EmptyLists, Records, Lists int
-	RecSizes                                                         []int
+	RecSizes                                                          []int
 }
 
 type ent struct {
